@@ -12,7 +12,8 @@
 
    Operations (Model/Registry.v): OReg n d, ONamed n, ONames
    (RegisteredDecorationNames), OStyles (auto.ListStyles), OSet n (new text
-   table selected by name, rendered), ORender k, OReSet k n
+   table selected by name, rendered), OAutoNew n (the same through auto.New,
+   which drops the error), ORender k, OReSet k n
    (SetDecorationNamed on the k-th table of the goroutine, rendered),
    OSetDec k d (SetDecoration on it, rendered).  A listing is a value: nothing
    a caller does to a returned listing is an operation, so later listings
@@ -79,6 +80,22 @@ Theorem c17_closed_history : forall body init (progs : list (list (nat * op))) t
        nth_error (run body (init_state init) tr) j = Some (VRender (Ok ([], true))).
 Proof. exact merge_closed. Qed.
 Print Assumptions c17_closed_history.
+
+(* The same through auto.New(n) for a dot-free n naming no sub-package (which
+   is texttable.Wrap + SetDecorationNamed(n), Props/C19.v c19_plain_is_set):
+   auto drops the error, the table still refuses to render - an unknown name
+   never falls back to some registered decoration, however similar its name. *)
+Theorem c17_closed_auto : forall body init (progs : list (list (nat * op))) tr,
+  is_merge progs tr -> forall i g n,
+  nth_error tr i = Some (g, OAutoNew n) ->
+  spec_named init (map snd (firstn i tr)) n = DEmpty ->
+  nth_error (run body (init_state init) tr) i = Some (VRender (Ok ([], true)))
+  /\ forall j k, i < j -> nth_error tr j = Some (g, ORender k) ->
+       k = length (tab_decs init g (firstn i tr)) ->
+       (forall m o, i < m < j -> nth_error tr m = Some (g, o) -> retargets k o = false) ->
+       nth_error (run body (init_state init) tr) j = Some (VRender (Ok ([], true))).
+Proof. exact merge_closed_auto. Qed.
+Print Assumptions c17_closed_auto.
 
 (* Selecting by name on a table that already exists - whatever it holds (an
    explicitly set usable decoration, the result of an earlier selection by the
